@@ -25,6 +25,9 @@ type HistConfig struct {
 	PMidEdit       float64 // external edit between load and execute
 	PConverge      float64
 	PGlobals       float64
+	PFailAfterEdit float64 // motif: edit, then a failing All run
+	PMute          float64 // a generator that now renders nothing for one package (with or without ErrIgnore)
+	PDepOutside    float64 // without All: select a package whose dependencies are not selected
 }
 
 func schedOf(policy string, seed uint64) simrt.Schedule {
@@ -74,7 +77,58 @@ func (w *histWorld) drawRun(r *Rng, cfg HistConfig) *RunOp {
 	if len(gens) == 1 {
 		gens = append(gens, w.gens[1])
 	}
+	if r.P(cfg.PMute) {
+		// the generator's behaviour changes between runs (as when its input tags or its code change):
+		// for one package it now renders nothing - with ErrIgnore from one type (the previous file must
+		// stay) or without (the previous file must go)
+		gi := r.Range(1, len(gens)-1)
+		if isScripted(&gens[gi]) {
+			gens[gi] = muteGen(r, w.m, gens[gi], r.Intn(len(w.m.Pkgs)))
+		}
+	}
+	if !args.All && r.P(cfg.PDepOutside) {
+		// select only packages that import something: their dependencies are local but not direct
+		var importers []int
+		for pi, p := range w.m.Pkgs {
+			if len(p.Imports) > 0 {
+				importers = append(importers, pi)
+			}
+		}
+		if len(importers) > 0 {
+			args.Entrypoint = spell(r, w.m, []int{Pick(r, importers)})
+		}
+	}
 	return &RunOp{Args: args, Gens: gens, Sched: drawSched(r), Fresh: r.P(0.5)}
+}
+
+// muteGen returns a copy of g that renders nothing for package pi; with
+// probability 1/2 one of its types (any position in the sorted order) returns
+// ErrIgnore, the others nil or ErrSkip.
+func muteGen(r *Rng, m *ModuleSpec, g proto.GenScript, pi int) proto.GenScript {
+	out := g
+	out.Rules = map[string]proto.Rule{}
+	for k, v := range g.Rules {
+		out.Rules[k] = v
+	}
+	out.AliasRules = map[string]proto.Rule{}
+	for k, v := range g.AliasRules {
+		out.AliasRules[k] = v
+	}
+	ip := m.ImportPath(pi)
+	var named []string
+	for _, td := range m.Pkgs[pi].TypeDecls() {
+		key := ip + " " + td.Name
+		if td.Alias {
+			out.AliasRules[key] = proto.Rule{}
+			continue
+		}
+		named = append(named, key)
+		out.Rules[key] = proto.Rule{Ret: Pick(r, []string{"", "", "skip"})}
+	}
+	if len(named) > 0 && r.P(0.5) {
+		out.Rules[Pick(r, named)] = proto.Rule{Ret: Pick(r, []string{"ignore", "wrapped-ignore"})}
+	}
+	return out
 }
 
 // injectFault turns run into a faulty run of the given kind.
@@ -92,7 +146,7 @@ func (w *histWorld) injectFault(r *Rng, run *RunOp, kind string) {
 			return
 		}
 		g := run.Gens[Pick(r, gi)]
-		do := Pick(r, []string{"gen-error", "gen-error", "gen-unparseable"})
+		do := Pick(r, []string{"gen-error", "gen-error", "gen-unparseable", "gen-panic"})
 		k := Pick(r, []string{"gen", "gen", "defer", "alias"})
 		run.Faults = append(run.Faults, proto.Fault{ExecSeq: -1, Kind: k, Gen: g.Name, Nth: r.Intn(3), Do: do})
 	case "io":
@@ -154,6 +208,24 @@ func DrawHistory(r *Rng, cfg HistConfig) (*Scenario, *histWorld) {
 			continue
 		}
 		switch {
+		case r.P(cfg.PFailAfterEdit) && faulty < 2:
+			// motif: edit a package, then an All run in which a generator fails (first callback of a
+			// scripted generator): the failed run must not mark the edited package as done
+			pi := r.Intn(len(m.Pkgs))
+			w.edits++
+			f := m.Pkgs[pi].Files[0]
+			ops = append(ops, Op{Kind: "edit", Path: w.pkgFile(pi, f.Name), Content: m.FileSource(pi, f, true) + fmt.Sprintf("\n// edit %d before a failing run\n", w.edits)})
+			run := w.drawRun(r, cfg)
+			run.Args.All, run.Args.Force = true, false
+			run.Args.Entrypoint = []string{"./..."}
+			for _, g := range run.Gens {
+				if isScripted(&g) {
+					run.Faults = append(run.Faults, proto.Fault{ExecSeq: -1, Kind: "gen", Gen: g.Name, Nth: r.Intn(2), Do: Pick(r, []string{"gen-error", "gen-unparseable"})})
+					break
+				}
+			}
+			faulty++
+			ops = append(ops, Op{Kind: "run", Run: run})
 		case r.P(cfg.PEdit):
 			pi := r.Intn(len(m.Pkgs))
 			w.edits++
@@ -293,11 +365,11 @@ func SimC07(c *CheckCtx, i int, r *Rng) error {
 		return SimC08(c, i, r)
 	}
 	return runHistory(c, i, r, HistConfig{MinOps: 3, MaxOps: 7, PAll: 0.6, PForce: 0.3, PGlobals: 0.2, PSubsetGens: 0.5, PEdit: 0.15, PStale: 0.25,
-		PSumOps: 0.05, PBreak: 0.08, PGenFault: 0.12, PIOFault: 0.12, PKill: 0.1, PConverge: 0.2})
+		PSumOps: 0.05, PBreak: 0.08, PGenFault: 0.12, PIOFault: 0.12, PKill: 0.1, PConverge: 0.2, PMute: 0.35, PDepOutside: 0.5})
 }
 
 // SimC08: the gengo.sum cache against the reference model.
 func SimC08(c *CheckCtx, i int, r *Rng) error {
 	return runHistory(c, i, r, HistConfig{MinOps: 4, MaxOps: 9, PAll: 0.85, PForce: 0.15, PGlobals: 0.1, PSubsetGens: 0.2, PEdit: 0.3, PStale: 0.05,
-		PSumOps: 0.2, PUnhashable: 0.06, PBreak: 0.04, PGenFault: 0.1, PIOFault: 0.12, PKill: 0.08, PMidEdit: 0.1, PConverge: 0.6})
+		PSumOps: 0.2, PUnhashable: 0.06, PBreak: 0.04, PGenFault: 0.1, PIOFault: 0.12, PKill: 0.08, PMidEdit: 0.1, PConverge: 0.6, PFailAfterEdit: 0.12, PMute: 0.1})
 }
